@@ -949,3 +949,100 @@ Proof.
   intros H1 H2 a Ha. apply coherent_refs_live_lemma.
   destruct (generations_coherent_lemma w ops H1 H2) as [G _]. unfold AllCoherent in G. rewrite Forall_forall in G. auto.
 Qed.
+
+(* ---------------------------------------------------------------------------------------------- *)
+(* 13. population shape: size, order (indices), labels *)
+Lemma eff_top T fo fh fa x y : eff T fo fh fa x y -> eff (fun _ => True) true true true x y.
+Proof. apply eff_weaken; unfold ble; auto. Qed.
+
+Lemma eff_top_wfresh k x : eff (fun _ => True) true true true x (wfresh k x).
+Proof. exact (eff_top _ _ _ _ _ _ (eff_wfresh k false false false x)). Qed.
+
+Lemma eff_reinit_opts which x : eff (fun _ => True) true true true x (reinit_opts which x).
+Proof.
+  unfold reinit_opts. apply eff_seqL. apply Forall_forall. intros f Hf. apply in_map_iff in Hf as (c & <- & _).
+  intros y. eapply eff_top. apply eff_reinit_one.
+Qed.
+
+Lemma eff_mutate_kind k sh x : eff (fun _ => True) true true true x (mutate_kind k sh x).
+Proof.
+  destruct k as [| | | |h v]; cbn [mutate_kind].
+  - apply eff_refl.
+  - apply eff_seqL. apply Forall_app. split.
+    + apply Forall_forall. intros f Hf. apply in_map_iff in Hf as (s & <- & _). intros y. eapply eff_top. apply eff_rebuild_eval.
+    + constructor; [intros y; eapply eff_top; apply eff_run_hooks|]. constructor; [intros y; apply eff_reinit_opts|constructor].
+  - cbv zeta. apply eff_seqL. repeat (apply Forall_cons; [intros y; first [apply eff_reinit_opts|apply eff_top_wfresh]|]).
+    apply Forall_nil.
+  - destruct (r_act_skip (a_reg (snd x))); [apply eff_refl|].
+    apply eff_seqL. apply Forall_app. split.
+    + apply Forall_forall. intros f Hf. apply in_map_iff in Hf as (s & <- & _). intros y. eapply eff_top. apply eff_rebuild_eval.
+    + constructor; [intros y; apply eff_reinit_opts|constructor].
+  - apply eff_seqL. constructor; [|constructor; [|constructor; [|constructor]]]; intros y.
+    + unfold pure. repeat split; auto; discriminate.
+    + apply eff_top_wfresh.
+    + apply eff_reinit_opts.
+Qed.
+
+Lemma mutate_agent_index_mut k sh label x :
+  a_index (snd (mutate_agent k sh label x)) = a_index (snd x) /\ a_mut (snd (mutate_agent k sh label x)) = label.
+Proof.
+  unfold mutate_agent. rewrite !seqL_cons, seqL_nil. unfold pure at 1. cbn [snd with_mut a_index a_mut]. split; auto.
+  destruct (eff_run_hooks (rebuild_shared (mutate_kind k sh x))) as (_ & _ & _ & _ & I3 & _). rewrite I3.
+  destruct (eff_rebuild_shared (mutate_kind k sh x)) as (_ & _ & _ & _ & I2 & _). rewrite I2.
+  destruct (eff_mutate_kind k sh x) as (_ & _ & _ & _ & I1 & _). exact I1.
+Qed.
+
+Lemma nth_error_update_eq {A} (l : list A) : forall i x, (i < length l)%nat -> nth_error (update i x l) i = Some x.
+Proof. induction l as [|h t IH]; intros [|i] x H; cbn in *; try lia; auto. apply IH. lia. Qed.
+
+Lemma map_update_same {A B} (f : A -> B) (l : list A) : forall i x a,
+  nth_error l i = Some a -> f x = f a -> map f (update i x l) = map f l.
+Proof.
+  induction l as [|h t IH]; intros [|i] x a H E; cbn in *; try discriminate; auto.
+  - injection H as ->. congruence.
+  - f_equal. eapply IH; eauto.
+Qed.
+
+Lemma mutate_step_indices i k sh label w :
+  map a_index (w_pop (step w (Mutate i k sh label))) = map a_index (w_pop w).
+Proof.
+  cbn [step]. unfold apply_local. destruct (nth_error (w_pop w) i) as [a|] eqn:E; auto. cbn [w_pop].
+  apply (map_update_same a_index _ i _ a E). apply (mutate_agent_index_mut k sh label (w_store w, a)).
+Qed.
+
+Lemma mutate_from_indices ds : forall i w, map a_index (w_pop (mutate_from i ds w)) = map a_index (w_pop w).
+Proof.
+  induction ds as [|[[k sh] lab] r IH]; intros i w; cbn [mutate_from]; auto. rewrite IH. apply mutate_step_indices.
+Qed.
+
+Lemma mutate_from_before ds : forall i w j, (j < i)%nat ->
+  nth_error (w_pop (mutate_from i ds w)) j = nth_error (w_pop w) j.
+Proof.
+  induction ds as [|[[k sh] lab] r IH]; intros i w j H; cbn [mutate_from]; auto.
+  rewrite IH by lia. cbn [step]. unfold apply_local. destruct (nth_error (w_pop w) i); auto. cbn [w_pop].
+  apply nth_error_update_ne. lia.
+Qed.
+
+Lemma mutate_from_label ds : forall i w j d, nth_error ds j = Some d -> (i + j < length (w_pop w))%nat ->
+  option_map a_mut (nth_error (w_pop (mutate_from i ds w)) (i + j)) = Some (snd d).
+Proof.
+  induction ds as [|[[k sh] lab] r IH]; intros i w j d Hd Hlt; [destruct j; discriminate|].
+  cbn [mutate_from]. destruct j as [|j]; cbn [nth_error] in Hd.
+  - injection Hd as <-. rewrite Nat.add_0_r in *. rewrite mutate_from_before by lia.
+    cbn [step]. unfold apply_local. destruct (nth_error (w_pop w) i) as [a|] eqn:E.
+    + cbn [w_pop]. rewrite nth_error_update_eq by auto. cbn [option_map snd].
+      f_equal; try apply (mutate_agent_index_mut k sh lab (w_store w, a)).
+    + apply nth_error_None in E. lia.
+  - replace (i + S j)%nat with (S i + j)%nat by lia. apply IH; auto.
+    cbn [step]. rewrite apply_local_length. lia.
+Qed.
+
+Lemma population_shape_lemma ds w :
+  length (w_pop (mutate_pop ds w)) = length (w_pop w) /\
+  map a_index (w_pop (mutate_pop ds w)) = map a_index (w_pop w) /\
+  (forall j d, nth_error ds j = Some d -> (j < length (w_pop w))%nat ->
+               option_map a_mut (nth_error (w_pop (mutate_pop ds w)) j) = Some (snd d)).
+Proof.
+  unfold mutate_pop. split; [apply mutate_from_length|]. split; [apply mutate_from_indices|].
+  intros j d Hd Hj. apply (mutate_from_label ds 0%nat w j d Hd). auto.
+Qed.
